@@ -169,6 +169,7 @@ def run_inject(desc, out):
     if O.abort_violation(base, out):
         return
     recv0 = {s.name: list(s.received) for s in base.strategies}
+    ledger0 = {s.name: ledger(base, s.name, "end") for s in base.strategies}
     audit0 = [(c["kind"], c["market"], str(c.get("pt"))) for c in base.callbacks]
     target = rng.choice(("A", "B", "middleware", "A", "B"))
     c2 = copy.deepcopy(case)
@@ -213,6 +214,15 @@ def run_inject(desc, out):
 
         c2["_middlewares"] = [mk]
         kind = "middleware"
+    elif rng.random() < 0.2:
+        # the strategy's work inside the documented real_time() block fails (flumine's own context manager is left by an exception)
+        st_ = next(s for s in c2["strategies"] if s["name"] == target)
+        books = [r for r in recv0[target] if r[0] == "book"]
+        if not books:
+            return
+        mk_ = rng.choice(sorted({r[1] for r in books}))
+        st_["actions"] = sorted(st_["actions"] + [{"m": mk_, "at": rng.randrange(max(1, sum(1 for r in books if r[1] == mk_) // 2 + 1)), "op": "real_time_raise"}], key=lambda a: a["at"])
+        kind = "real_time"
     else:
         kind = rng.choice(KINDS)
         counts = sum(1 for r in recv0[target] if r[0] == kind)
@@ -241,6 +251,10 @@ def run_inject(desc, out):
         if list(s.received) != recv0[s.name]:
             i = next((j for j, (x, y) in enumerate(zip(s.received, recv0[s.name])) if x != y), min(len(s.received), len(recv0[s.name])))
             out.v("other-strategy-delivery-changed", tags, strategy=s.name, index=i, got=s.received[i : i + 2], expected=recv0[s.name][i : i + 2], n_got=len(s.received), n_expected=len(recv0[s.name]))
+        # ... nor what happens to its orders (same requests, same fills, same timestamps), unless the injected strategy trades less
+        # afterwards and so leaves more for it: compared when the exception does not cut the other one's own requests
+        if kind == "real_time" and ledger(tr, s.name, "end") != ledger0[s.name]:
+            out.v("other-strategy-ledger-changed", tags, strategy=s.name)
     audit1 = [(c["kind"], c["market"], str(c.get("pt"))) for c in tr.callbacks]
     if target != "middleware" and kind != "orders" and audit1 != audit0:
         # (the auditor's process_orders calls depend on whether orders exist, which the injected strategy may change)
